@@ -26,6 +26,8 @@ pub mod sermodels;
 pub mod serial;
 pub mod c18;
 pub mod c05;
+pub mod lockmon;
+pub mod c11;
 
 use report::{Args, Report};
 
@@ -41,6 +43,7 @@ pub fn dispatch(cmd: &str, args: &Args, rep: &mut Report) -> bool {
         "C19" => c19::run(args, rep),
         "C18" => c18::run(args, rep),
         "C05" => c05::run(args, rep),
+        "C11" => c11::run(args, rep),
         "try" => trycmd(args),
         "probe" => probecmd(args),
         _ => return false,
